@@ -60,7 +60,14 @@ func rV2T(v value) rtype {
 
 // Given a reflect.Value, returns the underlying interpreter value.
 func rV2V(v value) value {
-	return v.(structure)[1]
+	p := v.(structure)[1]
+	if ad, ok := p.(raddr); ok {
+		if t, ok := v.(structure)[0].(rtype); ok {
+			return load(t.t, ad.p)
+		}
+		return *ad.p
+	}
+	return p
 }
 
 // makeReflectType boxes up an rtype in a reflect.Type interface.
